@@ -133,7 +133,7 @@ func (l *Lowerer) normMod(a *lin, q *big.Int) *lin {
 			if c.Sign() == 0 {
 				continue
 			}
-			if rec, ok := l.modAtoms[n]; ok && rec.q.Cmp(q) == 0 {
+			if rec, ok := l.modAtoms[n]; ok && new(big.Int).Mod(rec.q, q).Sign() == 0 { // (mod F q'), q | q'
 				r.addLin(rec.f, c)
 				ch = true
 				continue
